@@ -290,6 +290,9 @@ func cmp(op string, a, b Term, f func(c int) bool) Term {
 	if a.Const && b.Const {
 		return BoolC(f(a.I.Cmp(b.I)))
 	}
+	if a.S == b.S {
+		return BoolC(f(0))
+	}
 	// cancel a common positive constant factor: (x*g) op (y*g) <=> x op y
 	if g := new(big.Int).GCD(nil, nil, content(a), content(b)); g.Cmp(big.NewInt(1)) > 0 {
 		if a2, ok1 := divExact(a, g); ok1 {
@@ -384,21 +387,24 @@ func Ite(c, a, b Term) Term {
 	return t
 }
 
-// Solver drives one z3 process over pipes.
-type Solver struct {
-	cmd     *exec.Cmd
-	in      io.WriteCloser
-	out     *bufio.Reader
-	Queries int
-	sent    int
-	Unknown int
-	Errors  []string
-	Time    time.Duration
-	log     io.Writer
+// proc is one solver process driven over pipes; its output lines arrive on a channel so that several
+// processes can be raced.
+type proc struct {
+	kind  string // "z3-new" (primary), "z3" (4.8.12), "cvc5"
+	cmd   *exec.Cmd
+	in    io.WriteCloser
+	lines chan string
+	dead  bool
 }
 
-func NewSolver(bin string, args ...string) (*Solver, error) {
-	cmd := exec.Command(bin, args...)
+func startProc(kind string) (*proc, error) {
+	var cmd *exec.Cmd
+	switch kind {
+	case "cvc5":
+		cmd = exec.Command("cvc5", "--incremental", "--produce-models", "--lang=smt2")
+	default:
+		cmd = exec.Command(kind, "-in")
+	}
 	in, err := cmd.StdinPipe()
 	if err != nil {
 		return nil, err
@@ -411,7 +417,84 @@ func NewSolver(bin string, args ...string) (*Solver, error) {
 	if err := cmd.Start(); err != nil {
 		return nil, err
 	}
-	sv := &Solver{cmd: cmd, in: in, out: bufio.NewReader(out)}
+	p := &proc{kind: kind, cmd: cmd, in: in, lines: make(chan string, 4096)}
+	go func() {
+		r := bufio.NewReaderSize(out, 1<<16)
+		for {
+			l, err := r.ReadString('\n')
+			if l != "" {
+				p.lines <- strings.TrimSpace(l)
+			}
+			if err != nil {
+				close(p.lines)
+				return
+			}
+		}
+	}()
+	return p, nil
+}
+
+func (p *proc) send(line string) { io.WriteString(p.in, line+"\n") }
+
+func (p *proc) kill() {
+	if p == nil || p.dead {
+		return
+	}
+	p.dead = true
+	p.cmd.Process.Kill()
+	go func() {
+		for range p.lines {
+		}
+		p.cmd.Wait()
+	}()
+}
+
+// Solver is a small portfolio: the primary process (z3-new by default) receives every command; when it has not
+// answered a (check-sat) within raceAfter, the same query (replayed from the recorded script) is given to the
+// helper solvers (z3 4.8.12 and cvc5) and the first definite answer wins. Processes still busy after that are
+// killed and restarted on demand. An answer is "sat"/"unsat" from any one solver; "unknown" only if none decides.
+type Solver struct {
+	bin     string
+	prim    *proc
+	helpers []*proc
+	winner  *proc // process that answered the last Check (models are read from it)
+	// script recording for replay
+	incremental bool
+	decls       []string // incremental: every declaration / option sent so far
+	frame       []string // incremental: lines since the last (push 1); one-shot: lines since the last (reset)
+	skipPop     bool     // the primary was restarted inside a push frame: drop the matching (pop 1)
+	timeoutMs   int
+	Queries     int
+	Raced       int
+	HelperWins  map[string]int
+	sent        int
+	Unknown     int
+	Errors      []string
+	Time        time.Duration
+	log         io.Writer
+}
+
+var helperKinds = func() []string {
+	if os.Getenv("VERIF_NOPORTFOLIO") != "" {
+		return nil
+	}
+	var ks []string
+	for _, k := range []string{"z3", "cvc5"} {
+		if _, err := exec.LookPath(k); err == nil {
+			ks = append(ks, k)
+		}
+	}
+	return ks
+}()
+
+const raceAfter = 400 * time.Millisecond
+
+func NewSolver(bin string, incremental bool) (*Solver, error) {
+	p, err := startProc(bin)
+	if err != nil {
+		return nil, err
+	}
+	sv := &Solver{bin: bin, prim: p, incremental: incremental, timeoutMs: 30000, HelperWins: map[string]int{}}
 	if d := os.Getenv("VERIF_SMTLOG"); d != "" {
 		solverSeq++
 		if f, err := os.Create(fmt.Sprintf("%s/solver-%d-%d.smt2", d, os.Getpid(), solverSeq)); err == nil {
@@ -430,78 +513,263 @@ func (s *Solver) Send(line string) {
 	if s.log != nil {
 		fmt.Fprintln(s.log, line)
 	}
-	io.WriteString(s.in, line+"\n")
-}
-
-func (s *Solver) readLine() string {
-	l, err := s.out.ReadString('\n')
-	if err != nil {
-		panic("solver died: " + err.Error())
+	switch {
+	case line == "(reset)":
+		s.frame = s.frame[:0]
+		s.decls = s.decls[:0]
+	case s.incremental && line == "(push 1)":
+		s.frame = s.frame[:0]
+	case s.incremental && line == "(pop 1)":
+		s.frame = s.frame[:0]
+		if s.skipPop {
+			s.skipPop = false
+			return
+		}
+	case strings.HasPrefix(line, "(set-option :timeout "):
+		fmt.Sscanf(line, "(set-option :timeout %d)", &s.timeoutMs)
+		s.decls = append(s.decls, line)
+	case strings.HasPrefix(line, "(declare-") || strings.HasPrefix(line, "(define-"):
+		s.decls = append(s.decls, line)
+	case strings.HasPrefix(line, "(assert "):
+		s.frame = append(s.frame, line)
 	}
-	return strings.TrimSpace(l)
+	s.ensurePrim()
+	s.prim.send(line)
 }
 
-// Check returns "sat", "unsat" or "unknown"; any (error line => "unknown".
+// ensurePrim restarts a killed primary and restores what it must know (options and declarations; in one-shot
+// mode also the assertions since the last reset).
+func (s *Solver) ensurePrim() {
+	if s.prim != nil && !s.prim.dead {
+		return
+	}
+	p, err := startProc(s.bin)
+	if err != nil {
+		panic("cannot restart solver: " + err.Error())
+	}
+	s.prim = p
+	for _, d := range s.decls {
+		p.send(d)
+	}
+	if !s.incremental {
+		for _, a := range s.frame {
+			p.send(a)
+		}
+	}
+}
+
+// replayTo gives a helper the current query as a fresh problem.
+func (s *Solver) replayTo(h *proc) {
+	h.send("(reset)")
+	if h.kind == "cvc5" {
+		h.send("(set-logic ALL)")
+	}
+	for _, d := range s.decls {
+		if strings.HasPrefix(d, "(set-option") {
+			continue
+		}
+		h.send(d)
+	}
+	for _, a := range s.frame {
+		h.send(a)
+	}
+	h.send("(check-sat)")
+}
+
+func isAnswer(l string) bool { return l == "sat" || l == "unsat" || l == "unknown" }
+
+// Check returns "sat", "unsat" or "unknown"; an (error line from a solver counts as that solver's "unknown".
 func (s *Solver) Check() string {
 	t0 := time.Now()
 	s.Queries++
 	s.Send("(check-sat)")
+	res := s.check(t0)
+	s.Time += time.Since(t0)
+	if res == "unknown" {
+		s.Unknown++
+	}
+	if slowLog && time.Since(t0) > 500*time.Millisecond {
+		w := ""
+		if s.winner != nil {
+			w = s.winner.kind
+		}
+		fmt.Fprintf(os.Stderr, "SLOW %.2fs %s by %s (lines sent so far: %d)\n", time.Since(t0).Seconds(), res, w, s.sent)
+	}
+	return res
+}
+
+func (s *Solver) check(t0 time.Time) string {
+	s.winner = s.prim
+	classify := func(l string, ok bool, p *proc) (string, bool) {
+		if !ok {
+			p.dead = true
+			return "unknown", true
+		}
+		if isAnswer(l) {
+			return l, true
+		}
+		if strings.HasPrefix(l, "(error") {
+			if p == s.prim {
+				s.Errors = append(s.Errors, l)
+			}
+			p.kill() // its answer to the pending (check-sat) must never be read as the answer to a later one
+			return "unknown", true
+		}
+		return "", false
+	}
+	// phase 1: the primary alone
+	timer := time.NewTimer(raceAfter)
+	defer timer.Stop()
+	primDone, primRes := false, ""
+phase1:
 	for {
-		l := s.readLine()
-		switch {
-		case l == "sat" || l == "unsat" || l == "unknown":
-			s.Time += time.Since(t0)
-			if l == "unknown" {
-				s.Unknown++
+		select {
+		case l, ok := <-s.prim.lines:
+			if r, done := classify(l, ok, s.prim); done {
+				primDone, primRes = true, r
+				break phase1
 			}
-			if slowLog && time.Since(t0) > 500*time.Millisecond {
-				fmt.Fprintf(os.Stderr, "SLOW %.2fs %s (assertions sent so far: %d)\n", time.Since(t0).Seconds(), l, s.sent)
-			}
-			return l
-		case strings.HasPrefix(l, "(error"):
-			s.Errors = append(s.Errors, l)
-			s.Time += time.Since(t0)
-			s.Unknown++
-			return "unknown"
+		case <-timer.C:
+			break phase1
 		}
 	}
+	if primDone && primRes != "unknown" {
+		return primRes
+	}
+	if len(helperKinds) == 0 {
+		if primDone {
+			return primRes
+		}
+		for {
+			l, ok := <-s.prim.lines
+			if r, done := classify(l, ok, s.prim); done {
+				return r
+			}
+		}
+	}
+	// phase 2: race the helpers (and the primary if it is still working)
+	s.Raced++
+	for len(s.helpers) < len(helperKinds) {
+		s.helpers = append(s.helpers, nil)
+	}
+	type runner struct {
+		p    *proc
+		done bool
+	}
+	var rs []*runner
+	if !primDone {
+		rs = append(rs, &runner{p: s.prim})
+	}
+	for i, k := range helperKinds {
+		if s.helpers[i] == nil || s.helpers[i].dead {
+			h, err := startProc(k)
+			if err != nil {
+				continue
+			}
+			s.helpers[i] = h
+		}
+		s.replayTo(s.helpers[i])
+		rs = append(rs, &runner{p: s.helpers[i]})
+	}
+	deadline := time.NewTimer(time.Duration(s.timeoutMs) * time.Millisecond)
+	defer deadline.Stop()
+	result := "unknown"
+	var win *proc
+	for win == nil {
+		pending := 0
+		for _, r := range rs {
+			if !r.done {
+				pending++
+			}
+		}
+		if pending == 0 {
+			break
+		}
+		// wait on up to three channels
+		var c [3]chan string
+		var who [3]*runner
+		n := 0
+		for _, r := range rs {
+			if !r.done && n < 3 {
+				c[n], who[n] = r.p.lines, r
+				n++
+			}
+		}
+		var l string
+		var ok bool
+		var r *runner
+		timedOut := false
+		select {
+		case l, ok = <-c[0]:
+			r = who[0]
+		case l, ok = <-c[1]:
+			r = who[1]
+		case l, ok = <-c[2]:
+			r = who[2]
+		case <-deadline.C:
+			timedOut = true
+		}
+		if timedOut {
+			break
+		}
+		if res, done := classify(l, ok, r.p); done {
+			r.done = true
+			if res != "unknown" {
+				result, win = res, r.p
+			}
+		}
+	}
+	// whoever is still busy is killed (restarted on demand)
+	for _, r := range rs {
+		if !r.done {
+			r.p.kill()
+		}
+	}
+	if s.prim.dead && s.incremental {
+		s.skipPop = true
+	}
+	if win != nil {
+		s.winner = win
+		if win != s.prim {
+			s.HelperWins[win.kind]++
+		}
+	}
+	return result
+}
+
+// readLine reads the next output line of the process that answered the last Check.
+func (s *Solver) readLine() string {
+	p := s.winner
+	if p == nil || p.dead {
+		panic("solver died")
+	}
+	l, ok := <-p.lines
+	if !ok {
+		panic("solver died")
+	}
+	return l
+}
+
+// sendW sends a model query to the process that answered the last Check.
+func (s *Solver) sendW(line string) {
+	if s.log != nil {
+		fmt.Fprintln(s.log, "; to "+s.winner.kind+": "+line)
+	}
+	s.winner.send(line)
 }
 
 // GetValues asks for the values of the given constant names (after sat).
 func (s *Solver) GetValues(names []string) map[string]string {
 	res := map[string]string{}
 	for _, n := range names {
-		s.Send("(get-value (" + n + "))")
-		// read balanced s-expression
-		var sb strings.Builder
-		depth := 0
-		started := false
-		for !started || depth > 0 {
-			l := s.readLine()
-			for _, c := range l {
-				if c == '(' {
-					depth++
-					started = true
-				} else if c == ')' {
-					depth--
-				}
-			}
-			sb.WriteString(l)
-			sb.WriteString(" ")
-		}
-		v := strings.TrimSpace(sb.String())
-		// ((name value))
-		v = strings.TrimPrefix(v, "((")
-		v = strings.TrimSuffix(v, "))")
-		v = strings.TrimSpace(strings.TrimPrefix(v, n))
-		res[n] = v
+		res[n] = s.GetValueTerm(n)
 	}
 	return res
 }
 
 // GetValueTerm evaluates an arbitrary term under the current model.
 func (s *Solver) GetValueTerm(term string) string {
-	s.Send("(get-value (" + term + "))")
+	s.sendW("(get-value (" + term + "))")
 	var sb strings.Builder
 	depth := 0
 	started := false
@@ -520,8 +788,37 @@ func (s *Solver) GetValueTerm(term string) string {
 	}
 	v := strings.TrimSpace(sb.String())
 	v = strings.TrimSuffix(strings.TrimPrefix(v, "(("), "))")
-	v = strings.TrimSpace(strings.TrimPrefix(v, term))
+	if strings.HasPrefix(v, term) {
+		return strings.TrimSpace(strings.TrimPrefix(v, term))
+	}
+	// the solver echoed the term in its own spelling: the value is the last s-expression / token
+	v = strings.TrimSpace(v)
+	if strings.HasSuffix(v, ")") {
+		depth := 0
+		for i := len(v) - 1; i >= 0; i-- {
+			if v[i] == ')' {
+				depth++
+			} else if v[i] == '(' {
+				depth--
+				if depth == 0 {
+					return v[i:]
+				}
+			}
+		}
+		return v
+	}
+	if i := strings.LastIndexAny(v, " \t"); i >= 0 {
+		return v[i+1:]
+	}
 	return v
 }
 
-func (s *Solver) Close() { s.Send("(exit)"); s.cmd.Wait() }
+func (s *Solver) Close() {
+	if s.prim != nil && !s.prim.dead {
+		s.prim.send("(exit)")
+		s.prim.kill()
+	}
+	for _, h := range s.helpers {
+		h.kill()
+	}
+}
